@@ -16,6 +16,17 @@ def main() -> int:
             print("FORBIDDEN:", b)
         print("coq build:", "ok" if ok else "FAILED")
         return 0 if ok and not bad else 1
+    if cmd == "coqchk":
+        # independent re-check of every compiled property file (and all it depends on) + the axioms they rely on
+        import subprocess
+        from pathlib import Path
+        ok, _ = common.coq_build()
+        mods = ["ShampooProps." + f.stem for f in sorted((common.COQ / "props").glob("*.v"))]
+        r = subprocess.run(["timeout", "3000", "coqchk", "-silent", "-o", "-Q", "theories", "Shampoo", "-Q", "props", "ShampooProps",
+                            "-Q", "exec", "ShampooExec", *mods], cwd=common.COQ, capture_output=True, text=True)
+        (common.ROOT / "coqchk_report.txt").write_text(f"$ coqchk -silent -o ... {' '.join(mods)}\nexit={r.returncode}\n" + r.stdout + r.stderr)
+        print((r.stdout + r.stderr)[-1500:])
+        return 0 if (ok and r.returncode == 0) else 1
     if cmd == "replay":
         import importlib
         obj = json.loads(open(sys.argv[2]).read())
